@@ -4,7 +4,9 @@ from symx.runner import Ob
 
 ID = "C23"
 CM = "breezy.commit"
-FUNCTIONS = [CM + ":Commit._check_bound_branch", CM + ":Commit._check_out_of_date_tree", CM + ":Commit._update_branches"]
+FUNCTIONS = [CM + ":Commit._check_bound_branch", CM + ":Commit._check_out_of_date_tree", CM + ":Commit._update_branches",
+             "breezy.bzr.branch:BzrBranch.get_master_branch", "breezy.bzr.branch:BzrBranch.set_bound_location",
+             "breezy.bzr.branch:BzrBranch8.set_bound_location", "breezy.bzr.branch:BzrBranch8.get_bound_location"]
 STUBS = ["local branch, master branch, working tree, commit builder, config stack and exit stack are recording stubs; revision "
          "ids are symbolic (integers standing for ids, compared with ==), revision numbers are symbolic integers",
          "the three methods are called in the order Commit.commit() calls them (bound check, out-of-date check, builder.commit, "
@@ -211,9 +213,149 @@ def ob_commit(cx):
     cx.observe("outcome", outcome)
 
 
+BB = "breezy.bzr.branch"
+
+
+def ob_master_cache(cx):
+    """get_master_branch() is cached per lock; after any sequence of bind / unbind / lookups / lock cycles on ONE branch object
+    it must still answer with the branch at the location the branch is bound to NOW (commit in a checkout goes there first)."""
+    B = cx.mod(BB)
+    from dromedary.errors import NoSuchFile
+    opened = []
+
+    class Master:
+        def __init__(self, loc):
+            self.loc = loc
+
+    class BranchOpener:
+        @staticmethod
+        def open(loc, possible_transports=None):
+            m = Master(loc)
+            opened.append(m)
+            return m
+    B.Branch = BranchOpener
+    fmt = cx.pick("format", ["file", "config"])
+
+    class Transport:
+        def __init__(self):
+            self.files = {}
+
+        def put_bytes(self, name, data, mode=None):
+            self.files[name] = data
+
+        def get_bytes(self, name):
+            if name not in self.files:
+                raise NoSuchFile(name)
+            return self.files[name]
+
+        def delete(self, name):
+            if name not in self.files:
+                raise NoSuchFile(name)
+            del self.files[name]
+
+    class Conf:
+        """config stack: 'bound' is a boolean option stored as text, the rest are strings"""
+        def __init__(self):
+            self.d = {}
+
+        def get(self, name):
+            v = self.d.get(name)
+            if name == "bound":
+                return v == "True"
+            return v
+
+        def set(self, name, value):
+            self.d[name] = value
+
+    class Mixin:
+        def _verif_init(self):
+            self._transport = Transport()
+            self._conf = Conf()
+            self._depth = 0
+            self._clear_cached_state()
+
+            class CD:
+                @staticmethod
+                def _get_file_mode():
+                    return None
+            self.controldir = CD
+
+        def get_config_stack(self):
+            return self._conf
+
+        @contextlib.contextmanager
+        def _locked(self):
+            self._depth += 1
+            try:
+                yield self
+            finally:
+                self._depth -= 1
+                if self._depth == 0:
+                    self._clear_cached_state()      # what BzrBranch.unlock does when the last lock goes
+
+        def lock_read(self):
+            return self._locked()
+
+        def lock_write(self, token=None):
+            return self._locked()
+
+    base = B.BzrBranch if fmt == "file" else B.BzrBranch8
+
+    class Br(Mixin, base):
+        def __init__(self):
+            self._verif_init()
+    br = Br()
+    if fmt == "config":
+        # the two master locations are symbolic (possibly equal) strings; the file format encodes them to bytes (C level)
+        locs = {"bind_a": cx.str("loc_a", 2, "ab/"), "bind_b": cx.str("loc_b", 2, "ab/")}
+    else:
+        locs = {"bind_a": "file:///a/", "bind_b": "file:///b/"}
+    T = cx.truth
+
+    def same(x, y):
+        return (x is None) == (y is None) and (x is None or T(x == y))
+    bound = None
+    if cx.choose("initially_bound", 0, 1):
+        br.set_bound_location(locs["bind_a"])
+        bound = locs["bind_a"]
+    nops = cx.choose("nops", 0, cx.p("nops"))
+    outer = br.lock_write()
+    outer.__enter__()
+    for i in range(nops):
+        op = cx.pick("op%d" % i, ["lookup", "bind_a", "bind_b", "unbind", "relock"])
+        if op == "lookup":
+            m = br.get_master_branch()
+            cx.require(same(m and m.loc, bound),
+                       "step %d: get_master_branch answers %r, the branch is bound to %r" % (i, m and m.loc, bound))
+        elif op == "unbind":
+            br.set_bound_location(None)
+            bound = None
+        elif op == "relock":
+            outer.__exit__(None, None, None)
+            outer = br.lock_write()
+            outer.__enter__()
+        else:
+            br.set_bound_location(locs[op])
+            bound = locs[op]
+    m = br.get_master_branch()
+    cx.require(same(m and m.loc, bound),
+               "after the sequence get_master_branch answers %r although the branch is bound to %r: a commit would be "
+               "recorded in a branch this checkout is not bound to" % (m and m.loc, bound))
+    cx.require(same(br.get_bound_location(), bound), "get_bound_location answers %r, expected %r" % (br.get_bound_location(), bound))
+    outer.__exit__(None, None, None)
+    cx.cover("rebound" if bound else "unbound")
+    if opened[:-1]:
+        cx.cover("lookup_before_change")
+
+
 def obligations(tier):
     q = tier == "quick"
     return [Ob("bound_commit", ob_commit, [CM], {}, 900 if q else 3600, 2 if q else 1,
                ["refused", "bound_commit", "local_commit", "unbound_commit", "bound_out_of_date", "tree_out_of_date", "double_bound", "master_moved"],
                bounds="local / master / tree-parent revision ids arbitrary (5 symbolic ids + null), revnos 0..1000 symbolic, "
-                      "bound or not, --local or not, master itself bound or not, formats with / without stored revno")]
+                      "bound or not, --local or not, master itself bound or not, formats with / without stored revno"),
+            Ob("master_cache", ob_master_cache, [BB], dict(nops=3 if q else 5), 600 if q else 3600, 2 if q else 1,
+               ["rebound", "unbound", "lookup_before_change"],
+               bounds="one BzrBranch (bound file) or BzrBranch8 (config) object, initially bound or not, then <= %d operations "
+                      "from lookup / bind to a / bind to b / unbind / release and retake the lock, then the lookup a commit "
+                      "makes" % (3 if q else 5))]
